@@ -196,7 +196,71 @@ pub fn parse_validity_json(v: &Value) -> Option<(String, Option<String>, Vec<Raw
     Some((state, reason, list("matched")?, list("unmatched_as")?, list("unmatched_length")?, asn, prefix))
 }
 
+fn http_leg(ctx: &mut Ctx, rep: &mut Report) {
+    use crate::srv::{http_get, http_request, TestServer};
+    let hooks = crate::hooks::Hooks::install();
+    hooks.set_record(false);
+    let mut rng = ctx.rng("c20-http");
+    let mut srv = match TestServer::start(&ctx.scratch, |_| {}) {
+        Ok(s) => s, Err(e) => { rep.inconclusive(format!("http leg: {e}")); return }
+    };
+    let n = ctx.tier.pick(12usize, 300);
+    for _ in 0..n {
+        if !ctx.time_left() { break }
+        let (vrps, routes) = gen_case(&mut rng);
+        let mut model = crate::pgen::Model::default();
+        for v in &vrps { model.origins.insert(v.origin()); }
+        if srv.install(&hooks, &model).is_err() { rep.inconclusive("http leg: update failed"); return }
+        let mut batch = Vec::new();
+        for r in &routes {
+            let p = prefix_of(r.v4, r.bits, r.len);
+            batch.push(json!({"prefix": p.to_string(), "asn": format!("AS{}", r.asn)}));
+            let t1 = format!("/api/v1/validity/AS{}/{}", r.asn, p);
+            let t2 = format!("/validity?asn=AS{}&prefix={}", r.asn, p.to_string().replace(':', "%3A").replace('/', "%2F"));
+            for (via, target) in [("GET /api/v1/validity", t1), ("GET /validity?", t2)] {
+                rep.eval();
+                match http_get(srv.http_addr, &target) {
+                    Ok(resp) if resp.status == 200 => {
+                        match serde_json::from_slice::<Value>(&resp.body).ok().and_then(|v| v.get("validated_route").cloned()).and_then(|v| parse_validity_json(&v)) {
+                            Some((state, reason, m, a, l, _, _)) => {
+                                let c = judge_lists(via, &vrps, r, &state, reason.as_deref(), &m, &a, &l, rep);
+                                rep.class(format!("http|{c}"));
+                            }
+                            None => rep.violation("C20/json-unparsable", format!("{via}: body does not parse"), json!({"target": target, "body": resp.text()})),
+                        }
+                    }
+                    Ok(resp) => rep.violation("C20/http-status", format!("{via}: status {} for {target}", resp.status), json!({"target": target})),
+                    Err(e) => rep.inconclusive(format!("http leg: {e}")),
+                }
+            }
+        }
+        let body = json!({"routes": batch}).to_string();
+        match http_request(srv.http_addr, "POST", "/validity", &[("Content-Type", "application/json".into())], Some(body.as_bytes()), Duration::from_secs(20)) {
+            Ok(resp) if resp.status == 200 => {
+                let parsed: Option<Value> = serde_json::from_slice(&resp.body).ok();
+                match parsed.as_ref().and_then(|v| v.get("validated_routes")).and_then(|v| v.as_array()) {
+                    Some(arr) if arr.len() == routes.len() => {
+                        for (idx, r) in routes.iter().enumerate() {
+                            rep.eval();
+                            match parse_validity_json(&arr[idx]) {
+                                Some((state, reason, m, a, l, _, _)) => { judge_lists("POST /validity", &vrps, r, &state, reason.as_deref(), &m, &a, &l, rep); }
+                                None => rep.violation("C20/json-unparsable", "POST /validity: entry does not parse", json!({"body": resp.text()})),
+                            }
+                        }
+                        rep.count("http_batch_posts", 1);
+                    }
+                    _ => rep.violation("C20/batch-json-shape", "POST /validity: wrong shape", json!({"body": resp.text(), "request": body})),
+                }
+            }
+            Ok(resp) => rep.violation("C20/http-status", format!("POST /validity: status {}", resp.status), json!({"request": body})),
+            Err(e) => rep.inconclusive(format!("http leg: {e}")),
+        }
+    }
+    crate::hooks::Hooks::uninstall();
+}
+
 fn run_c20(ctx: &mut Ctx, rep: &mut Report) {
+    if ctx.shard % 4 == 0 { http_leg(ctx, rep); }
     let mut rng = ctx.rng("c20");
     let cases = ctx.tier.pick(6_000u64, 200_000);
     for i in 0..cases {
